@@ -33,6 +33,14 @@ def _typed_coerce(
     return _coerce
 
 
+def _parse_bool(value: Any) -> bool:
+    if not isinstance(value, bool):
+        raise ValueError(
+            "Boolean cannot represent non boolean value: %r" % (value,)
+        )
+    return value
+
+
 _coerce_bool_node = _typed_coerce(bool, _ast.BooleanValue)
 
 
@@ -40,7 +48,7 @@ Boolean = ScalarType(
     "Boolean",
     description="The `Boolean` scalar type represents `true` or `false`.",
     serialize=bool,
-    parse=bool,
+    parse=_parse_bool,
     parse_literal=_coerce_bool_node,
 )
 
